@@ -149,6 +149,9 @@ def main(argv):
     # callers mean "needs a contract", not "bug" (modular verification sees a callee only through its contract)
     known_units = set(l.strip() for l in open(os.path.join(VERIF, 'spec', 'known_units.txt')) if l.strip() and not l.startswith('#'))
     new_units = set(u['path'].split('@')[0] for u in res['units'] if u['path'].split('@')[0] not in known_units)
+    # a unit whose body Verus could not translate on this tree (or whose overlay lost its anchor) was re-emitted WITHOUT contract:
+    # its callers see `ensures true`, exactly like the callers of a new function
+    new_units |= set(res.get('auto_external') or {})
     needs_contract = []
     if new_units and viol:
         keep = []
@@ -229,7 +232,7 @@ def main(argv):
         rc = 2
     elif needs_contract:
         for f, who in needs_contract[:10]:
-            print('TOOL-ERROR: undecided: %s :: %s involves function(s) without a contract (new since the contracts were written): %s' % (f['unit'], f['oid'], ', '.join(who)))
+            print('TOOL-ERROR: undecided: %s :: %s involves function(s) without a contract on this tree (new, untranslatable by Verus, or with a lost overlay anchor): %s' % (f['unit'], f['oid'], ', '.join(who)))
         rc = 2
     extra['canaries'] = canaries
     extra['unstable'] = unstable
